@@ -242,9 +242,9 @@ pub fn def() -> PropDef {
         abort_possible: false,
         parts: |tier| {
             vec![
-                part("roundtrip", tier.pick(60_000, 2_000_000), case_strategy(), roundtrip),
-                part("parser_total", tier.pick(40_000, 1_000_000), proptest::collection::vec(any::<u8>(), 0..12), parser_total),
-                part("parser_mutated", tier.pick(30_000, 800_000), (case_strategy(), any::<u16>(), any::<u8>()), parser_mutated),
+                part("roundtrip", tier.pick(60_000, 12_000_000), case_strategy(), roundtrip),
+                part("parser_total", tier.pick(40_000, 6_000_000), proptest::collection::vec(any::<u8>(), 0..12), parser_total),
+                part("parser_mutated", tier.pick(30_000, 4_800_000), (case_strategy(), any::<u16>(), any::<u8>()), parser_mutated),
             ]
             .into_iter()
             .chain(if tier == Tier::Thorough { Some(part_fuzz("libfuzzer_c04_ids", "c04_ids", 6_000_000, 512)) } else { None })
